@@ -96,6 +96,14 @@ def reused_model(family, theta, rng):
     library itself re-uses instances (vine edges, select_copula candidates)."""
     th0 = random_theta(family, rng)
     m = make_model(family, th0)
+    if rng.random() < 0.5:
+        # ... or fitted on data first (anything precomputed at fit time must follow a later assignment too)
+        from vmon.refs import samplers
+        try:
+            m.fit(samplers.gaussian(0.5 if family != 'frank' else float(rng.choice([-0.5, 0.5])), 80, rng))
+            th0 = m.theta
+        except Exception:  # noqa: BLE001
+            pass
     X = interior_points(rng, 6)
     for fn in (m.cumulative_distribution, m.probability_density, m.partial_derivative, m.log_probability_density):
         try:
